@@ -19,13 +19,29 @@ def build(r, name, n, mask, fieldless, generics=None):
         v.disabled = bool(d)
     if fieldless and r.random() < 0.5:
         prev = None
+        used = set()
+        mode = r.choice(["ascending", "unordered", "descending"])
         for v in s.variants:
-            if r.random() < 0.4:
-                val = (prev if prev is not None else r.randint(-4, 2)) + r.randint(1, 5)
+            nxt = 0 if prev is None else prev + 1
+            if r.random() < 0.45 or nxt in used:
+                for _ in range(100):
+                    if mode == "ascending":
+                        val = (prev if prev is not None else r.randint(-4, 2)) + r.randint(1, 5)
+                    elif mode == "descending":
+                        val = (prev if prev is not None else 90) - r.randint(2, 9)
+                    else:
+                        val = r.randint(-50, 100)
+                    if val not in used and (val + 1) not in used:
+                        break
                 v.disc = (str(val), val)
             else:
-                val = 0 if prev is None else prev + 1
+                val = nxt
+            used.add(val)
             prev = val
+        vals = [d for d in model.discriminants(s)]
+        if len(set(vals)) != len(vals):
+            for v in s.variants:
+                v.disc = None
         if any(v.disc and v.disc[1] < 0 for v in s.variants):
             s.repr = r.choice(["i8", "i32", "isize"])
     ders = ["EnumCount", "EnumIter", "VariantNames"]
@@ -70,6 +86,18 @@ def glue(spec):
     return body
 
 
+DUP_SHAPES = [
+    ([("Http", {}), ("HTTP", {}), ("Other", {})], "lowercase"),
+    ([("A", {"serialize": ["mid"]}), ("B", {"serialize": ["mid"]}), ("C", {"to_string": "mid"}), ("D", {})], None),
+    ([("First", {}), ("X", {"to_string": "same"}), ("Y", {"to_string": "same"}), ("Last", {"to_string": "same"})], "snake_case"),
+    ([("ab", {}), ("aB", {}), ("Ab", {}), ("AB", {})], "UPPERCASE"),
+    ([("P", {"to_string": ""}), ("Q", {"to_string": ""})], None),
+    ([("Gray", {}), ("Red", {}), ("Grey", {"to_string": "gray"}), ("Blue", {}), ("GRAY", {})], "lowercase"),
+    ([("A", {"serialize": ["dup", "d"]}), ("B", {}), ("C", {"serialize": ["d", "dup"]}), ("D", {"to_string": "dup"}), ("E", {})], None),
+]
+
+
+
 def check(run):
     deps, vmon = setup(run)
     thorough = run.tier == "thorough"
@@ -82,20 +110,13 @@ def check(run):
             specs.append(build(r0, "S%d" % k, n, mask, fieldless=(k % 3 != 2)))
             k += 1
     r = gen.rng_for(run.seed, "c08")
-    for i in range(1200 if thorough else 220):
+    for i in range(5000 if thorough else 900):
         n = r.choice([0, 1, 2, 3, 4, 6, 9, 14])
         mask = [r.random() < (0.25 if i % 2 else 0.0) for _ in range(n)]
         fl = r.random() < 0.6
         specs.append(build(r, "R%d" % i, n, mask, fieldless=fl, generics=None if fl else r.choice([None, "T", "N", "TU"])))
     # variants whose canonical names coincide (legal without EnumString): one entry per variant must remain
-    dup_shapes = [
-        ([("Http", {}), ("HTTP", {}), ("Other", {})], "lowercase"),
-        ([("A", {"serialize": ["mid"]}), ("B", {"serialize": ["mid"]}), ("C", {"to_string": "mid"}), ("D", {})], None),
-        ([("First", {}), ("X", {"to_string": "same"}), ("Y", {"to_string": "same"}), ("Last", {"to_string": "same"})], "snake_case"),
-        ([("ab", {}), ("aB", {}), ("Ab", {}), ("AB", {})], "UPPERCASE"),
-        ([("P", {"to_string": ""}), ("Q", {"to_string": ""})], None),
-    ]
-    for di, (vs, style) in enumerate(dup_shapes):
+    for di, (vs, style) in enumerate(DUP_SHAPES):
         for pref in (None, "p:"):
             for disabled_at in (None, 0, 1):
                 variants = [Variant(ident=i, serialize=list(a.get("serialize", [])), to_string=a.get("to_string")) for i, a in vs]
